@@ -15,7 +15,7 @@ def layers(tier):
     jobs = []
     projs = [None, [['s'], None], [['x'], ['x']], [['x', 's'], ['s', 'x']]]
     for meas in SET_MEASURES + ('OVERLAP',):
-        ts = list(range(1, K + 1)) if meas == 'OVERLAP' else th_att(meas, K, grid=4)
+        ts = list(range(1, K + 1)) + [1.5] if meas == 'OVERLAP' else th_att(meas, K, grid=4)
         for t in ts:
             for op in ('>=', '>', '='):
                 for score in (True, False):
